@@ -15,19 +15,19 @@ import (
 
 // Fixed actors.
 var (
-	KA       = Key("appchain-admin-A")
-	KB       = Key("appchain-admin-B")
-	KC       = Key("appchain-admin-C")
-	KOut     = Key("outsider")
-	KPauper  = Key("pauper")
-	KUser    = Key("user")
-	KUser2   = Key("user2")
-	ChainA   = "chainA"
-	ChainB   = "chainB"
-	ChainC   = "chainC"
-	Svc1     = "0xB2dD6977169c5067d3729E3deB9a82c3e7502BF1" // A:s1
-	Svc2     = "0xB2dD6977169c5067d3729E3deB9a82c3e7502BF2" // B:s2
-	Svc3     = "0xB2dD6977169c5067d3729E3deB9a82c3e7502BF3" // A:s3 (blacklisted by B:s2)
+	KA        = Key("appchain-admin-A")
+	KB        = Key("appchain-admin-B")
+	KC        = Key("appchain-admin-C")
+	KOut      = Key("outsider")
+	KPauper   = Key("pauper")
+	KUser     = Key("user")
+	KUser2    = Key("user2")
+	ChainA    = "chainA"
+	ChainB    = "chainB"
+	ChainC    = "chainC"
+	Svc1      = "0xB2dD6977169c5067d3729E3deB9a82c3e7502BF1" // A:s1
+	Svc2      = "0xB2dD6977169c5067d3729E3deB9a82c3e7502BF2" // B:s2
+	Svc3      = "0xB2dD6977169c5067d3729E3deB9a82c3e7502BF3" // A:s3 (blacklisted by B:s2)
 	GoodProof = []byte("true")
 )
 
@@ -132,7 +132,7 @@ var (
 
 // BaseWorld returns a fresh world restored from the (cached) post-prelude snapshot.
 func BaseWorld(opt Options) *World {
-	key := fmt.Sprintf("%+v", opt)
+	key := opt.Key()
 	baseMu.Lock()
 	s, ok := baseSnaps[key]
 	if !ok {
